@@ -1025,7 +1025,7 @@ fn sweep(fc: &FileCtx, o: &Opts, idx: u64, st: &mut Stats, tot: &mut DfsTotals, 
 
 pub fn replay(case: &Value) -> Result<(), String> {
     let f = &case["file"];
-    let file = make_file(f["sid"].as_u64().unwrap() as usize, f["layout"].as_u64().unwrap() as usize, f["rows"].as_u64().unwrap() as usize);
+    let file = pqfile_from_json(f)?;
     let fc = FileCtx::new(file)?;
     let o = opts_from_json(&case["opts"]);
     let want = sync_rows(&fc, &o)?;
